@@ -364,6 +364,8 @@ func execTree(c *fw.Ctx, cs c15Case, abstract *xmltree.Node) {
 	errD := xml.Unmarshal(doc, &direct)
 	if errR, ok := r.decodeRaw("decode", "unmarshal-root", &raw, &viaRaw); ok {
 		r.sameDecode("decode", "generic", "unmarshal-root", errR, errD, &viaRaw, &direct)
+		// Decode is a reader of the value: what it captured is still there
+		r.checkTokens("tokens-after-decode", &raw, r.t0)
 	}
 	if c.WantSample() && abstract != nil && len(feats) >= 6 && len(cs.Doc) < 600 {
 		out, _ := xml.Marshal(&raw)
